@@ -14,6 +14,8 @@ mod serde_ev;
 mod visit_ev;
 mod build_ev;
 mod edit_ev;
+mod digest_ev;
+mod digest_parse;
 
 use std::collections::HashMap;
 
@@ -78,6 +80,7 @@ fn real_main() {
         "visit-events" => visit_ev::visit_events(&args),
         "build-events" => build_ev::build_events(&args),
         "edit-events" => edit_ev::edit_events(&args),
+        "digest" => digest_ev::digest(&args),
         _ => {
             eprintln!("unknown command {cmd:?}");
             std::process::exit(2);
